@@ -22,6 +22,8 @@ type realTConn struct {
 	How    string // dial | accept
 	Want   string // dial target
 	Expect bool   // the plan guarantees the conditions under which this call has to succeed
+	OpID   int
+	Link   int    // accept: id of the peer_connect operation it is meant for
 	Conn   *client.TCPConn
 	Err    error
 	Done   bool
@@ -90,7 +92,7 @@ func (w *SrvWorld) execRealTCP(rc *RealClient, op *Op) bool {
 		if ta == nil {
 			return true
 		}
-		rt := &realTConn{How: op.Kind, Want: op.A.Peer, Expect: hasFlag(op, "expect"), T0: w.K.Now()}
+		rt := &realTConn{How: op.Kind, Want: op.A.Peer, Expect: hasFlag(op, "expect"), T0: w.K.Now(), OpID: op.ID, Link: op.A.N}
 		w.e2eMu.Lock()
 		rt.Idx = len(rc.TConns)
 		rc.TConns = append(rc.TConns, rt)
@@ -268,6 +270,85 @@ func (w *SrvWorld) cleanForExpectations() bool {
 	return w.lossFree && len(w.K.StallIntervals()) == 0 && len(w.P.IOFaults) == 0 && len(w.P.NetFaults) == 0 && !w.closedSrv
 }
 
+// expectationHolds re-derives, from what really happened in this run, the conditions under
+// which a flagged call has to succeed - the plan's flag alone is not trusted, so that a
+// minimiser that drops the peer, the permission or the peer's connect drops the expectation
+// with it. Called under e2eMu.
+func (w *SrvWorld) expectationHolds(rc *RealClient, rt *realTConn) bool {
+	if rc.Closed && rc.ClosedAt <= rt.T1 {
+		return false
+	}
+	switch rt.How {
+	case "dial":
+		listening := false
+		for _, p := range w.Peers {
+			if p.ln != nil && akey(p.Addr.IP, p.Addr.Port) == rt.Want {
+				listening = true
+			}
+		}
+		if !listening {
+			return false
+		}
+		// RFC 6062 allows one connection per peer address: of two Dials to one peer that overlap
+		// (or of a later one while the first connection lives) either may be the one refused
+		for _, o := range rc.TConns {
+			if o != rt && o.How == "dial" && o.Want == rt.Want && o.T0 <= rt.T1 {
+				return false
+			}
+		}
+		return true
+	case "accept":
+		// the one peer connection made for this Accept: issued in time, by a peer the
+		// allocation had a permission for, and every earlier connect was consumed by an
+		// earlier successful Accept (the client's queue holds nothing stale)
+		var link *Op
+		before := 0
+		for i := range w.P.Ops {
+			o := &w.P.Ops[i]
+			if o.Kind != "peer_connect" || o.A.Target != rc.Spec.ID {
+				continue
+			}
+			if o.ID == rt.Link {
+				link = o
+			} else if t, ok := w.issuedAt[o.ID]; ok && t <= rt.T1 {
+				before++
+			}
+		}
+		if link == nil {
+			return false
+		}
+		tc, ok := w.issuedAt[link.ID]
+		if !ok || tc < rt.T0-20500*ms || tc > rt.T1-3*sec {
+			return false
+		}
+		okBefore := 0
+		for _, o := range rc.TConns {
+			if o != rt && o.How == "accept" && o.OpID < rt.OpID {
+				if !o.Done || o.Err != nil {
+					return false
+				}
+				okBefore++
+			}
+		}
+		if before != okBefore {
+			return false
+		}
+		p := w.Peers[link.Actor]
+		if p == nil {
+			return false
+		}
+		w.Mon.mu.Lock()
+		defer w.Mon.mu.Unlock()
+		for _, a := range w.Mon.M.Allocs[ustr(rc.Addr)] {
+			if a.TCP && w.Mon.M.DefinitelyAlive(a, tc, rt.T1) && w.Mon.M.PermDefinitely(a, p.Addr.IP.String(), tc, tc+sec) {
+				return true
+			}
+		}
+		return false
+	}
+	return false
+}
+
 // checkE2ETCP: the application's view of the TCP relay.
 func (w *SrvWorld) checkE2ETCP() {
 	if w.K.Free {
@@ -283,18 +364,22 @@ func (w *SrvWorld) checkE2ETCP() {
 		relay, _ := rc.TAlloc.Addr().(*net.TCPAddr)
 		for _, rt := range rc.TConns {
 			if !rt.Done {
-				if rt.Expect && clean {
+				rt.T1 = w.K.Now()
+				if rt.Expect && clean && w.expectationHolds(rc, rt) {
 					w.K.Violate(&Violation{Property: "C16", Class: "e2e-call-stuck", Key: kv("how", rt.How),
 						Detail: fmt.Sprintf("%s #%d started at %d ns has not returned by the end of the plan", rt.How, rt.Idx, rt.T0)})
 				}
 				continue
 			}
 			if rt.Err != nil {
-				if rt.Expect && clean && !(rc.Closed && rc.ClosedAt <= rt.T1) {
+				if rt.Expect && clean && w.expectationHolds(rc, rt) {
 					w.K.Violate(&Violation{Property: "C16", Class: "e2e-" + rt.How + "-failed", Key: nil,
 						Detail: fmt.Sprintf("%s #%d (peer %s, %d..%d ns) failed although the peer was there, permitted and in time: %v", rt.How, rt.Idx, rt.Want, rt.T0, rt.T1, rt.Err)})
 				}
 				continue
+			}
+			if rt.Expect && clean && w.expectationHolds(rc, rt) {
+				w.K.Stats.Probe("e2e_expectation_met_" + rt.How)
 			}
 			cid := uint32(rt.Conn.ConnectionID)
 			w.Mon.mu.Lock()
